@@ -479,7 +479,8 @@ fn fail2<T>(sig: String, msg: String) -> Result<T, Fail> {
 
 #[derive(Clone, Debug, Default, Serialize, Deserialize)]
 pub struct SkinSpec {
-    /// None = old layout; Some(v) = new layout with header version v (0 Vanilla-era, 1 Cataclysm, 2 MoP)
+    /// None = old layout; Some(v) = new layout: header version v for 0 (Vanilla-era), 1 (Cataclysm), 2 (MoP), 3 (WoD),
+    /// 4 (Legion); 5 = BfA (header version 4 plus centre fields)
     pub new_version: Option<u32>,
     pub indices: Vec<u16>,
     pub triangles: Vec<u16>,
@@ -555,7 +556,11 @@ pub fn build_skin(s: &SkinSpec) -> SkinFile {
             let mv = match v {
                 0 => wow_m2::M2Version::WotLK,
                 1 => wow_m2::M2Version::Cataclysm,
-                _ => wow_m2::M2Version::MoP,
+                2 => wow_m2::M2Version::MoP,
+                3 => wow_m2::M2Version::WoD,
+                4 => wow_m2::M2Version::Legion,
+                // header version 4 again, with the centre position / bounds fields behind the arrays
+                _ => wow_m2::M2Version::BfA,
             };
             let mut header = SkinHeader::new(mv);
             header.vertex_count = s.vertex_count;
